@@ -50,6 +50,16 @@ class LocalHashFileDB(HashFileDB):
         # being ~5.5 times faster.
         return f"{self.path}{os.sep}{oid[0:2]}{os.sep}{oid[2:]}"
 
+    def exists(self, oid: str) -> bool:
+        # NOTE: an object is made read-only only once it is complete, so an
+        # unprotected one might be a leftover of an interrupted operation and
+        # has to be verified (check() removes it if it is corrupted).
+        try:
+            self.check(oid)
+        except (FileNotFoundError, ObjectFormatError):
+            return False
+        return True
+
     def oids_exist(self, oids, jobs=None, progress=noop):
         ret = []
         progress = partial(progress, "querying", len(oids))
